@@ -1,2 +1,312 @@
-import Compio.Model.TlsSys
-import Compio.Model.WsShim
+/-
+C15 — TLS and WebSocket layers preserve the stream over any transport behaviour.
+
+The theorems are about the functions the driver `c15d` executes (`TlsSys.run`, `TlsShim.pollHandshake`,
+`TlsShim.sslDoHandshake`, `WsShim.pollNext`, ...). The TLS / WebSocket engines are third-party and enter as the
+abstract record / frame layers of `Model/TlsShim.lean` and `Model/WsShim.lean` (assumption A-E1); the
+transport is the scheduled duplex of `Model/TlsNet.lean`: any per-call transfer limit `lim ≥ 1`, any numbers
+`dr`/`dw`/`dfh`/`df` of consecutive `Pending`s before a read / write / flush is performed (a fair schedule),
+buffering or not.
+
+Contents
+  1. one engine call during the handshake (`engine_call_spec`, `blocked_read_nothing_unflushed`)
+  2. one poll of the `handshake` future (`handshake_poll_spec`, `pending_has_wakeup`)
+  3. the two-party handshake: invariant, no deadlock, explicit bound (`handshake_completes`)
+  4. WebSocket: flush before yield, flush order, no item lost
+  5. non-vacuity examples
+Defects (F150, F151, the latent `Done` arm) are witnessed in `Cex/C15.lean`; the guards below (`astream = false`
+for the plain transport, `HasSC` for a handshake of at least three flights) are exactly what separates them.
+-/
+import Compio.Lemmas.TlsSys
+import Compio.Lemmas.WsShim
+
+namespace Compio.Props.C15
+open Compio.TlsNet Compio.TlsShim Compio.TlsSys
+
+/-! ### 1. one call of the engine's handshake function through the shim -/
+
+/-- **Specification of `SSL_do_handshake` over `AllowStd`/`OpensslInner`**, for every transport schedule and
+every tape. From a state satisfying the shim invariant (`Good`: context pointer set, `¬written → nothing
+unflushed`, cells in flight aligned with the two tapes) the call
+  * never fails and never trips `assert!(!self.context.is_null())`,
+  * ends in a state satisfying the invariant again,
+  * returns `Ok` only with the tape and the post-handshake cells used up,
+  * returns `WouldBlock` only with the wake-up arranged: the transport woke the caller's waker itself
+    (`own`), or the waker is registered (`rwait`) on an *empty* pipe while *nothing of ours is unflushed* and
+    it is the peer's turn,
+  * and pays for every step out of the progress measure `S0`. -/
+theorem engine_call_spec (sc : Sched) (p : Peer) (b' : Nat) (fuel : Nat) (o : Ossl) (v : View)
+    (g : Good sc p b' o v) (hfuel : o.tape.length + o.post < fuel) :
+    HsPost sc p b' o v (sslDoHandshake sc fuel o v).1 (sslDoHandshake sc fuel o v).2.1
+      (sslDoHandshake sc fuel o v).2.2 :=
+  doHs_spec sc p b' fuel o v g hfuel
+
+/-- **waiting for the peer ⇒ nothing unflushed** (the reason a buffering transport cannot deadlock the
+handshake): whenever the engine call blocks on an empty pipe, the endpoint's transport buffer is empty, the
+pipe towards us is empty, our waker is registered there, and the next cell on the tape is the peer's. -/
+theorem blocked_read_nothing_unflushed (sc : Sched) (p : Peer) (b' : Nat) (fuel : Nat) (o : Ossl) (v : View)
+    (g : Good sc p b' o v) (hfuel : o.tape.length + o.post < fuel) {o' : Ossl} {v' : View}
+    (h : sslDoHandshake sc fuel o v = (o', v', .wouldBlock .reg)) :
+    v'.tp.wbuf.toList = [] ∧ v'.rx.q.toList = [] ∧ v'.rx.rwait = true ∧ ∃ t, o'.tape = o.me.other :: t := by
+  have hs := doHs_spec sc p b' fuel o v g hfuel
+  rw [h] at hs
+  obtain ⟨_, _, h3, h4, h5, t, h6⟩ := hs.res
+  exact ⟨h5, h3, h4, t, h6⟩
+
+/-- the engine call never reports an error or a failed context assertion, whatever the schedule -/
+theorem engine_call_no_failure (sc : Sched) (p : Peer) (b' : Nat) (fuel : Nat) (o : Ossl) (v : View)
+    (g : Good sc p b' o v) (hfuel : o.tape.length + o.post < fuel) :
+    (sslDoHandshake sc fuel o v).2.2 ≠ .err ∧ (sslDoHandshake sc fuel o v).2.2 ≠ .panic := by
+  have hs := (doHs_spec sc p b' fuel o v g hfuel).res
+  constructor <;> intro h <;> rw [h] at hs <;> exact hs
+
+/-! ### 2. one poll of the `handshake` async fn -/
+
+/-- **Specification of one poll of `handshake(f, stream)`** (`StartedHandshakeFuture`, `MidHandshake`,
+`finish_handshake`, the post-handshake flush), in any of its states; see `PollPost`. In state `start` the
+engine must not be able to finish inside the first call (`hnd`) - `handshake_completes` discharges this for
+every handshake with a client flight after a server flight. -/
+theorem handshake_poll_spec {sc : Sched} {p : Peer} {b' : Nat} {fut : HsFut} {o : Ossl} {v : View}
+    (hr : Rest sc p b' fut o v) (hfuel : o.tape.length + o.post < sc.fuel) (hne : fut ≠ .done)
+    (hnd : fut = .start → (sslDoHandshake sc sc.fuel { o with ctx := true } v).2.2 ≠ .ok ()) :
+    PollPost sc p b' fut o v (pollHandshake sc fut o v).1 (pollHandshake sc fut o v).2.1
+      (pollHandshake sc fut o v).2.2.1 (pollHandshake sc fut o v).2.2.2 :=
+  pollHandshake_spec hr hfuel hne hnd
+
+/-- **no busy loop, no lost wake-up**: every `Pending` the handshake future returns to its caller comes with
+the caller's wake-up arranged by the transport: either the transport has woken the waker during this very
+poll, or the waker is stored in the (empty) pipe the future is waiting on. The context pointer is cleared
+again (`Guard`), and the future never fails. -/
+theorem pending_has_wakeup {sc : Sched} {p : Peer} {b' : Nat} {fut : HsFut} {o : Ossl} {v : View}
+    (hr : Rest sc p b' fut o v) (hfuel : o.tape.length + o.post < sc.fuel) (hne : fut ≠ .done)
+    (hnd : fut = .start → (sslDoHandshake sc sc.fuel { o with ctx := true } v).2.2 ≠ .ok ())
+    {fut' : HsFut} {o' : Ossl} {v' : View} {r : PollR Unit} (h : pollHandshake sc fut o v = (fut', o', v', r)) :
+    o'.ctx = false ∧ r ≠ .err ∧ r ≠ .panic ∧
+    (∀ pd, r = .pending pd → v'.own = true ∨ (v'.rx.rwait = true ∧ v'.rx.q.toList = [])) := by
+  have hs := pollHandshake_spec hr hfuel hne hnd
+  rw [h] at hs
+  obtain ⟨hrest, _, _, _, _, _, hres⟩ := hs
+  refine ⟨hrest.ctx, ?_, ?_, ?_⟩
+  · intro he; rw [he] at hres; exact hres
+  · intro he; rw [he] at hres; exact hres
+  · intro pd hp
+    rw [hp] at hres
+    cases pd with
+    | self => exact Or.inl hres.1
+    | reg => exact Or.inr ⟨hres.2.2.2.2.1, hres.2.2.2.1⟩
+
+/-- the post-handshake flush: when the future resolves, the endpoint's transport buffer is empty -/
+theorem handshake_ready_flushed {sc : Sched} {p : Peer} {b' : Nat} {fut : HsFut} {o : Ossl} {v : View}
+    (hr : Rest sc p b' fut o v) (hfuel : o.tape.length + o.post < sc.fuel) (hne : fut ≠ .done)
+    (hnd : fut = .start → (sslDoHandshake sc sc.fuel { o with ctx := true } v).2.2 ≠ .ok ())
+    {fut' : HsFut} {o' : Ossl} {v' : View} (h : pollHandshake sc fut o v = (fut', o', v', .ready ())) :
+    fut' = .done ∧ o'.tape = [] ∧ o'.post = 0 ∧ v'.tp.wbuf.toList = [] := by
+  have hs := pollHandshake_spec hr hfuel hne hnd
+  rw [h] at hs
+  obtain ⟨hrest, _, _, _, _, _, hres⟩ := hs
+  have hd : fut' = .done := hres.1
+  subst hd
+  exact ⟨rfl, hrest.phase⟩
+
+/-! ### 3. the two-party handshake -/
+
+/-- the invariant of the two-party system holds initially and is kept by every pass of the executor, which
+also lowers the progress measure `Sys.phi` -/
+theorem invariant_step {y : Sys} (h : Inv y) (hr : y.runnable = true) : Inv (round y) ∧ (round y).phi < y.phi :=
+  round_step h hr
+
+/-- **no deadlock**: in every state of the invariant that is not finished, some task has its wake flag set
+(two endpoints can never both wait for the peer) -/
+theorem no_deadlock {y : Sys} (h : Inv y) (hnd : y.allDone = false) : y.runnable = true :=
+  runnable_of_inv h hnd
+
+/-- **The handshake completes, with an explicit bound, for every fair transport schedule** - in particular
+over a buffering transport. For every per-call limit `lim ≥ 1`, all delays `dr dw dfh df`, buffering or not,
+every handshake tape with a client flight after a server flight (`HasSC`) and any number of post-handshake
+cells: the executor of the harness, started on the two `handshake` futures, finishes within
+`hsBound sc tape post = O((dr+dw+dfh+df+1) * (|tape| + post))` passes with both futures resolved `Ok`, no
+panic (context assertion), never stuck, never out of polls. -/
+theorem handshake_completes (sc : Sched) (tape : List Side) (post : Nat) (hlim : 1 ≤ sc.lim)
+    (hdir : sc.astream = false) (hwf : HasSC tape) (hfuel : tape.length + post + 2 < sc.fuel) :
+    (run (hsBound sc tape post) (Sys.init sc false tape post [] [])).2 = .done ∧
+    (run (hsBound sc tape post) (Sys.init sc false tape post [] [])).1.c.res = [.ok 0] ∧
+    (run (hsBound sc tape post) (Sys.init sc false tape post [] [])).1.s.res = [.ok 0] ∧
+    (run (hsBound sc tape post) (Sys.init sc false tape post [] [])).1.panicked = false := by
+  obtain ⟨hinv, hphi⟩ := init_inv sc tape post hlim hdir hwf hfuel
+  obtain ⟨hdone, hinv', hall⟩ := run_done (hsBound sc tape post) _ hinv hphi
+  generalize (run (hsBound sc tape post) (Sys.init sc false tape post [] [])).1 = y at hinv' hall
+  obtain ⟨fc, oc, fs, os, a, b, a', b', w⟩ := hinv'
+  simp only [Sys.allDone, Bool.and_eq_true] at hall
+  have htc := w.tc
+  have hts := w.ts
+  simp only [hall.1, if_true] at htc
+  simp only [hall.2, if_true] at hts
+  exact ⟨hdone, htc.1.res, hts.1.res, w.nopanic⟩
+
+/-- more fuel for the executor changes nothing (the bound is sufficient, not tuned) -/
+theorem handshake_completes_any_fuel (sc : Sched) (tape : List Side) (post : Nat) (hlim : 1 ≤ sc.lim)
+    (hdir : sc.astream = false) (hwf : HasSC tape) (hfuel : tape.length + post + 2 < sc.fuel)
+    (n : Nat) (hn : hsBound sc tape post ≤ n) :
+    (run n (Sys.init sc false tape post [] [])).2 = .done := by
+  obtain ⟨hinv, hphi⟩ := init_inv sc tape post hlim hdir hwf hfuel
+  exact (run_done n _ hinv (by omega)).1
+
+/-! ### 4. compio-ws: flush before yield, flush order, nothing lost -/
+
+section Ws
+open Compio.WsShim
+
+/-- **`Sink::poll_flush` of compio-ws** (protocol flush, then transport flush): `Ready` means that nothing is
+pending at any level - no queued reply, empty write buffer, empty stream buffer - and that everything,
+including a queued pong / close reply, has reached the peer's pipe in order. -/
+theorem ws_flush_ready {sc : WSched} {w w' : Ws} {v v' : WView} (hn : NoBuf sc v)
+    (h : WsShim.pollFlush sc w v = (w', v', .ready ())) :
+    w'.e.additional = none ∧ w'.e.out = [] ∧ v'.tbuf = [] ∧
+    v'.tx = v.tx ++ v.tbuf ++ w.e.out ++ addList w.e := by
+  obtain ⟨_, h1, h2, h3, _, _, h6⟩ := pollFlush_ready hn h
+  exact ⟨h1, h2, h3, h6⟩
+
+/-- a `Pending` flush has the transport's wake-up and loses / reorders nothing -/
+theorem ws_flush_pending {sc : WSched} {w w' : Ws} {v v' : WView} {p : Pend} (hn : NoBuf sc v)
+    (h : WsShim.pollFlush sc w v = (w', v', .pending p)) :
+    p = .self ∧ v'.wire ++ w'.e.out ++ addList w'.e = v.wire ++ w.e.out ++ addList w.e := by
+  obtain ⟨_, h1, h2, _, _, h5⟩ := pollFlush_pending hn h
+  refine ⟨h1, ?_⟩
+  rw [h5]; simp [addList, h2]
+
+/-- **flush before yielding an item** (`Stream::poll_next`): when `poll_next` hands an item to the caller,
+  * the item is either the parked one or the head of the incoming frames, consumed exactly once,
+  * the reply that reading it queued (pong for a ping, close reply for a close) has already reached the
+    peer's pipe, after everything written before,
+  * and nothing is left pending (`next_item`, reply queue, write buffer, stream buffer all empty). -/
+theorem ws_next_ready {sc : WSched} {w w' : Ws} {v v' : WView} {item : Frame} (hn : NoBuf sc v)
+    (h : pollNext sc w v = (w', v', .ready item)) :
+    w'.nextItem = none ∧ w'.e.additional = none ∧ w'.e.out = [] ∧ v'.tbuf = [] ∧
+    ((w.nextItem = some item ∧ v'.rx = v.rx ∧ v'.tx = v.tx ++ v.tbuf ++ w.e.out ++ addList w.e) ∨
+     (w.nextItem = none ∧ v.rx = item :: v'.rx ∧
+       (w.e.additional = none → v'.tx = v.tx ++ v.tbuf ++ w.e.out ++ replyOf w.e item))) := by
+  unfold pollNext at h
+  cases hni : w.nextItem with
+  | some it =>
+    simp only [hni] at h
+    cases hf : WsShim.pollFlush sc w v with
+    | mk w1 x =>
+      obtain ⟨v1, r1⟩ := x
+      rw [hf] at h
+      cases r1 with
+      | pending p => simp at h
+      | ready u =>
+        cases u
+        simp only [Prod.mk.injEq, R.ready.injEq] at h
+        obtain ⟨h1, h2, h3⟩ := h; subst h1; subst h2; subst h3
+        obtain ⟨_, g1, g2, g3, g4, _, g6⟩ := pollFlush_ready hn hf
+        exact ⟨rfl, g1, g2, g3, Or.inl ⟨rfl, g4, g6⟩⟩
+  | none =>
+    simp only [hni] at h
+    rcases engRead_spec w.e v with ⟨_, heq⟩ | ⟨f, rest, e', hrx, heq, hout, hadd⟩
+    · rw [heq] at h; simp at h
+    · rw [heq] at h
+      simp only at h
+      cases hf : WsShim.pollFlush sc { w with e := e', nextItem := some f } { v with rx := rest } with
+      | mk w1 x =>
+        obtain ⟨v1, r1⟩ := x
+        rw [hf] at h
+        cases r1 with
+        | pending p => simp at h
+        | ready u =>
+          cases u
+          simp only [Prod.mk.injEq, R.ready.injEq] at h
+          obtain ⟨h1, h2, h3⟩ := h; subst h1; subst h2; subst h3
+          have hn1 : NoBuf sc { v with rx := rest } := hn
+          obtain ⟨_, g1, g2, g3, g4, _, g6⟩ := pollFlush_ready hn1 hf
+          refine ⟨rfl, g1, g2, g3, Or.inr ⟨rfl, by rw [hrx, g4], fun ha => ?_⟩⟩
+          rw [g6]; simp only; rw [hout, hadd ha]
+
+/-- **a `Pending` `poll_next` keeps the item**: an item that has been taken from the protocol layer stays
+parked in `next_item` until the flushes are through - it is neither lost nor read twice; a `Pending` because
+nothing has arrived registers the waker and parks nothing. -/
+theorem ws_next_pending {sc : WSched} {w w' : Ws} {v v' : WView} {p : Pend} (hn : NoBuf sc v)
+    (h : pollNext sc w v = (w', v', .pending p)) :
+    (p = .reg ∧ w.nextItem = none ∧ v.rx = [] ∧ w'.nextItem = none ∧ v'.rwait = true) ∨
+    (p = .self ∧ ((∃ it, w.nextItem = some it ∧ w'.nextItem = some it ∧ v'.rx = v.rx) ∨
+                  (∃ it, w.nextItem = none ∧ v.rx = it :: v'.rx ∧ w'.nextItem = some it))) := by
+  unfold pollNext at h
+  cases hni : w.nextItem with
+  | some it =>
+    simp only [hni] at h
+    cases hf : WsShim.pollFlush sc w v with
+    | mk w1 x =>
+      obtain ⟨v1, r1⟩ := x
+      rw [hf] at h
+      cases r1 with
+      | ready u => cases u; simp at h
+      | pending p1 =>
+        simp only [Prod.mk.injEq, R.pending.injEq] at h
+        obtain ⟨h1, h2, h3⟩ := h; subst h1; subst h2; subst h3
+        obtain ⟨_, g1, _, g3, g4, _⟩ := pollFlush_pending hn hf
+        exact Or.inr ⟨g1, Or.inl ⟨it, rfl, by rw [g4, hni], g3⟩⟩
+  | none =>
+    simp only [hni] at h
+    rcases engRead_spec w.e v with ⟨hrx, heq⟩ | ⟨f, rest, e', hrx, heq, _, _⟩
+    · rw [heq] at h
+      simp only [Prod.mk.injEq, R.pending.injEq] at h
+      obtain ⟨h1, h2, h3⟩ := h; subst h1; subst h2; subst h3
+      exact Or.inl ⟨rfl, rfl, hrx, rfl, rfl⟩
+    · rw [heq] at h
+      simp only at h
+      cases hf : WsShim.pollFlush sc { w with e := e', nextItem := some f } { v with rx := rest } with
+      | mk w1 x =>
+        obtain ⟨v1, r1⟩ := x
+        rw [hf] at h
+        cases r1 with
+        | ready u => cases u; simp at h
+        | pending p1 =>
+          simp only [Prod.mk.injEq, R.pending.injEq] at h
+          obtain ⟨h1, h2, h3⟩ := h; subst h1; subst h2; subst h3
+          have hn1 : NoBuf sc { v with rx := rest } := hn
+          obtain ⟨_, g1, _, g3, g4, _⟩ := pollFlush_pending hn1 hf
+          exact Or.inr ⟨g1, Or.inr ⟨f, rfl, by rw [hrx, g3], by rw [g4]⟩⟩
+
+/-- `send` from a clean state: `Ready` means the frame is in the peer's pipe, after everything before it -/
+theorem ws_send_ready {sc : WSched} {w w' : Ws} {v v' : WView} {f : Frame} {q : Bool} (hn : NoBuf sc v)
+    (hr : w.e.ready = true) (h : pollSend sc w v f false = (w', v', q, .ready ())) :
+    v'.tx = v.tx ++ v.tbuf ++ w.e.out ++ [f] ++ addList w.e ∧ w'.e.out = [] ∧ v'.tbuf = [] := by
+  unfold pollSend at h
+  simp only [Bool.false_eq_true, if_false, hr, if_true] at h
+  cases hf : WsShim.pollFlush sc { w with e := engWrite w.e f } v with
+  | mk w1 x =>
+    obtain ⟨v1, r1⟩ := x
+    rw [hf] at h
+    simp only [Prod.mk.injEq] at h
+    obtain ⟨h1, h2, _, h4⟩ := h; subst h1; subst h2; subst h4
+    obtain ⟨_, _, g2, g3, _, _, g6⟩ := pollFlush_ready hn hf
+    refine ⟨?_, g2, g3⟩
+    rw [g6]; simp [engWrite, addList, List.append_assoc]
+
+end Ws
+
+/-! ### 5. non-vacuity -/
+
+/-- a TLS-1.3 shaped tape satisfies the well-formedness hypothesis -/
+example : HasSC [.client, .client, .server, .server, .server, .client] :=
+  ⟨[.client, .client], [.server, .server, .client], rfl, by simp⟩
+
+/-- the hypotheses of `handshake_completes` are satisfiable with a buffering transport, a 1-byte transfer
+limit and every call delayed -/
+example : (run (hsBound ⟨1, true, false, 2, 1, 3, 1, 100⟩ [.client, .server, .client] 2)
+    (Sys.init ⟨1, true, false, 2, 1, 3, 1, 100⟩ false [.client, .server, .client] 2 [] [])).2 = .done :=
+  (handshake_completes ⟨1, true, false, 2, 1, 3, 1, 100⟩ [.client, .server, .client] 2 (by decide) rfl
+    ⟨[.client], [.client], rfl, by simp⟩ (by decide)).1
+
+/-- reading a ping over a buffering stream whose writes pend once: the first poll parks the ping and
+returns `Pending`; when the ping is yielded by the second poll its pong is in the peer's pipe -/
+example :
+    let sc : WsShim.WSched := ⟨true, 1, 0⟩
+    let v0 : WsShim.WView := ⟨[], 0, 0, [], [⟨.ping, [1, 2]⟩], false⟩
+    let r1 := WsShim.pollNext sc WsShim.Ws.new v0
+    let r2 := WsShim.pollNext sc r1.1 r1.2.1
+    (match r1.2.2 with | .pending .self => true | _ => false) = true ∧ r1.1.nextItem = some ⟨.ping, [1, 2]⟩ ∧
+    (match r2.2.2 with | .ready f => f == ⟨.ping, [1, 2]⟩ | _ => false) = true ∧
+    r2.2.1.tx = [⟨.pong, [1, 2]⟩] := by decide
+
+end Compio.Props.C15
